@@ -20,6 +20,11 @@ pub struct DescPlan {
     pub descs: Vec<DescSpec>,
     /// per replica: hash seed and a permutation seed for insertion orders
     pub replicas: Vec<(u64, u64)>,
+    /// (i, spec): right before descriptor i is built, the same thread tries to build `spec`, which is
+    /// malformed in one way or another and refused; a refused construction must not influence the
+    /// identity of the descriptors built afterwards
+    #[serde(default)]
+    pub rejects: Vec<(usize, DescSpec)>,
 }
 
 fn split2(s: &str, r: &mut Rng) -> (String, String) {
@@ -92,7 +97,28 @@ fn gen_desc_plan(seed: u64) -> DescPlan {
         descs.push(b);
     }
     let replicas = (0..3).map(|_| (r.next(), r.next())).collect();
-    DescPlan { env: Env::basic(r.next()), descs, replicas }
+    let mut rejects = vec![];
+    for i in 0..descs.len() {
+        if !r.chance(30) {
+            continue;
+        }
+        // a well-formed start (name, help, constant labels of some descriptor of the plan, or fresh
+        // ones) spoiled at a late stage: most checks come after part of the work has been done
+        let mut bad = r.pick(&descs).clone();
+        if bad.consts.is_empty() || r.chance(30) {
+            bad.consts = vec![("zone".to_string(), "eu".to_string()), ("a".to_string(), split2(base, &mut r).0)];
+        }
+        match r.below(6) {
+            0 => bad.vars = vec!["9bad".to_string()],
+            1 => bad.vars = vec!["v".to_string(), "v".to_string()],
+            2 => bad.vars = vec![bad.consts[0].0.clone()],
+            3 => bad.vars = vec!["ok".to_string(), "é".to_string()],
+            4 => bad.help = String::new(),
+            _ => bad.consts.push(("bad name".to_string(), "x".to_string())),
+        }
+        rejects.push((i, bad));
+    }
+    DescPlan { env: Env::basic(r.next()), descs, replicas, rejects }
 }
 
 fn build_desc(s: &DescSpec, perm_seed: u64) -> std::result::Result<(u64, u64), String> {
@@ -113,12 +139,22 @@ fn execute_c15(plan: &DescPlan, mode: Mode) -> RunOut {
     let outp: Arc<Mutex<Vec<Vec<std::result::Result<(u64, u64), String>>>>> = Arc::new(Mutex::new(vec![vec![]; plan.replicas.len()]));
     for (k, (hs, ps)) in plan.replicas.iter().enumerate() {
         let descs = plan.descs.clone();
+        let rejects = plan.rejects.clone();
         let outp = outp.clone();
         let (hs, ps) = (*hs, *ps);
         sim.spawn(&format!("replica{}", k), false, move |ctx| {
             set_hash_seed(hs);
             ctx.invoke(op_id(k, 0));
-            let v: Vec<_> = descs.iter().enumerate().map(|(i, d)| build_desc(d, ps ^ i as u64)).collect();
+            let v: Vec<_> = descs
+                .iter()
+                .enumerate()
+                .map(|(i, d)| {
+                    for (_, bad) in rejects.iter().filter(|(at, _)| *at == i) {
+                        let _ = build_desc(bad, ps ^ 0x5151 ^ i as u64);
+                    }
+                    build_desc(d, ps ^ i as u64)
+                })
+                .collect();
             ctx.ret(op_id(k, 0));
             outp.lock().unwrap()[k] = v;
         });
@@ -158,8 +194,9 @@ fn execute_c15(plan: &DescPlan, mode: Mode) -> RunOut {
         }
     }
     let mut fp = crate::rng::Fp::default();
-    fp.str(&serde_json::to_string(&plan.descs).unwrap());
+    fp.str(&serde_json::to_string(&(&plan.descs, &plan.rejects)).unwrap());
     out.signature = fp.0;
+    out.probes.push(("refused_constructions_in_between", plan.rejects.len() as u64));
     out.probes.push(("pairs_with_equal_identity", eq_pairs));
     out.probes.push(("descriptors_built", first.iter().filter(|x| x.is_ok()).count() as u64));
     out.faults.push(("hash_seed_replicas", reps.len() as u64));
@@ -195,8 +232,14 @@ impl Scenario for C15 {
             if p.descs.len() > 2 {
                 let mut n = p.clone();
                 n.descs.remove(i);
+                n.rejects = n.rejects.into_iter().filter(|(at, _)| *at != i).map(|(at, b)| (if at > i { at - 1 } else { at }, b)).collect();
                 c.push(n);
             }
+        }
+        for i in 0..p.rejects.len() {
+            let mut n = p.clone();
+            n.rejects.remove(i);
+            c.push(n);
         }
         c.into_iter().map(|p| serde_json::to_value(p).unwrap()).collect()
     }
@@ -313,10 +356,16 @@ fn gen_creation(r: &mut Rng) -> Creation {
             consts.push((k, "v".to_string()));
         }
     }
-    let nv = if matches!(kind, CKind::CounterVec | CKind::HistogramVec | CKind::Desc) { 1 + r.below(2) as usize } else { 0 };
+    let span = if r.chance(25) { 5 } else { 2 };
+    let nv = if matches!(kind, CKind::CounterVec | CKind::HistogramVec | CKind::Desc) { 1 + r.below(span) as usize } else { 0 };
     let mut vars = vec![];
     for _ in 0..nv {
         vars.push(mostly_ok(r, LABEL_POOL, &["l", "a", "a_1", "_a", "L", "w"]));
+    }
+    if nv >= 3 && r.chance(40) {
+        // a repeat that is not adjacent (first and last)
+        let first = vars[0].clone();
+        *vars.last_mut().unwrap() = first;
     }
     let path = r.below(4) as u8;
     Creation { kind, namespace, subsystem, name, help, consts, vars, path }
